@@ -12,6 +12,7 @@ CONSTANTS Comp = "pairs"
   NBuf = 0
   Gaps <- G_31
   Strict = FALSE
+  Busy = FALSE
   D = 3
 INIT Init
 NEXT Next
